@@ -219,5 +219,8 @@ def register_best_gmm(reg):
         canaries={'always_the_simplest_model': lambda result, **kw: lift(result.t if hasattr(result, 't') else result) == 0,
                   'always_the_lowest_score': lambda result, abics, **kw: Forall(0, ln(abics), lambda j: Implies(
                       Not(_isnan(abics[j])), _rv(abics[lift(result.t if hasattr(result, 't') else result)]) <= _rv(abics[j])))},
+        native_call=lambda abics, mode, min_prob, delta_mul_gain: __import__('ampycloud.layer', fromlist=['x']).best_gmm(
+            __import__('numpy').array([float(x) for x in abics], dtype=float), mode=mode, min_prob=float(min_prob),
+            delta_mul_gain=float(delta_mul_gain)),
         notes="mode='prob' (scores2nrl: exp / sum of relative likelihoods) is not under contract; the documented default 'delta' is",
     ))
